@@ -24,8 +24,6 @@ ASSUMPTIONS = [
     "module graphs without cross-module name clashes (finding V22, open: one global scope keyed by the source name, "
     "getMangledFn falls back to any module) — theorem hypothesis NoCrossModuleClash; clash witnesses are replayed as known findings",
     "no module imports a name it also defines and no name is imported twice ('already exists in current scope' is a different rule)",
-    "no local variable or parameter shares its name with a global (finding V23, open: the interpreter resolves free variables "
-    "through the caller's scopes)",
     "global initialisers are literals (the analyzer demands constant initialisers), so the order in which the modules' "
     "@init functions run is not observable",
     "template and trigger imports (host modules) are not generated",
@@ -40,7 +38,6 @@ REGRESSIONS = [
 
 KNOWN = {
     "V22": [("global", mg.V22_GLOBAL_CLASH, "a.f a.x\nb.g b.x\n"), ("function", mg.V22_FN_CLASH, "a.g a.x\nb.y\n")],
-    "V23": [("dynamic-scope", mg.V23_DYNAMIC_SCOPE, "main.h main.x\nlocal\na.f a.y\n")],
 }
 
 
@@ -266,6 +263,10 @@ def run(ctx):
         ctx.count(case_key=mods, nontrivial=True)
         if out.startswith(("CRASH", "HANG", "PANIC", "A=PANIC")) or "cyclic" not in out and "noitem" not in out:
             ctx.violation({"kind": "modgraph", "mods": mods, "go": out[:300]}, f"C15 regression {fid}: {out[:120]}")
+    # V23 (repaired): a function called from a function whose local shadows a global reads the global on both backends
+    if witness_fails(mg.V23_DYNAMIC_SCOPE, "main.h main.x\nlocal\na.f a.y\n", reps=5):
+        ctx.violation({"kind": "modgraph", "mods": mg.V23_DYNAMIC_SCOPE}, "C15 regression V23: a free variable of a called function is "
+                      "resolved through the caller's scopes (or the backends disagree) on the recorded witness")
     two = list(mg.family_a()) + list(mg.family_b()) + list(mg.family_c()) + list(mg.family_e()) + list(mg.family_r())
     for i in range(0, len(two), 1000):
         if len(ctx.violations) >= 5:
